@@ -918,6 +918,7 @@ class CollapseCollector(WrappingCollector):
             self.orderfacet = None
 
     def prepare(self, top_searcher, q, context):
+        self._q = q
         # Categorizer for getting the collapse key of a document
         self.keyer = self.keyfacet.categorizer(top_searcher)
         # Categorizer for getting the collapse order of a document
@@ -951,26 +952,34 @@ class CollapseCollector(WrappingCollector):
             self.orderer.set_searcher(subsearcher, offset)
 
     def all_ids(self):
-        child = self.child
+        # Only used when the child collector did not see every matching
+        # document (block quality optimizations): go through the matches again
+        # and let through as many documents per key as collapsing keeps
+        top_searcher = self.top_searcher
+        q = self._q
         limit = self.limit
+        keyer = self.keyer
         counters = defaultdict(int)
 
-        for subsearcher, offset in child.subsearchers():
-            self.set_subsearcher(subsearcher, offset)
-            matcher = child.matcher
-            keyer = self.keyer
-            for sub_docnum in child.matches():
-                ckey = keyer.key_for(matcher, sub_docnum)
-                if ckey is not None:
-                    if ckey in counters and counters[ckey] >= limit:
+        for subsearcher, offset in top_searcher.leaf_searchers():
+            keyer.set_searcher(subsearcher, offset)
+            matcher = q.matcher(subsearcher, top_searcher.boolean_context())
+            while matcher.is_active():
+                sub_docnum = matcher.id()
+                ckey = keyer.key_to_name(keyer.key_for(matcher, sub_docnum))
+                matcher.next()
+                if ckey:
+                    if counters[ckey] >= limit:
                         continue
-                    else:
-                        counters[ckey] += 1
+                    counters[ckey] += 1
                 yield offset + sub_docnum
 
     def count(self):
+        # The child collector only knows about the documents that survived
+        # collapsing: the eliminated ones were never passed to it or were
+        # removed from it again
         if self.child.computes_count():
-            return self.child.count() - self.collapsed_total
+            return self.child.count()
         else:
             return ilen(self.all_ids())
 
@@ -1024,6 +1033,7 @@ class CollapseCollector(WrappingCollector):
 
     def results(self):
         r = self.child.results()
+        r.collector = self
         r.collapsed_counts = self.collapsed_counts
         return r
 
